@@ -417,6 +417,16 @@ class Metadata(CbMixin, ProgMixin):
                 dest_path = os.path.join(dest, pathnode.full)
                 copypath(verified[pathnode.full][0], dest_path)
                 self.cb(pathnode.path, dest_path, self.num_pieces)
+        # a torrent of empty files only has no piece to hang them on
+        for entry in self.files:
+            if entry["length"] or entry.get("pad") or entry["full"] in copied:
+                continue
+            for loc, size in filemap.get(entry["filename"], []):
+                if size == 0:
+                    dest_path = os.path.join(dest, entry["full"])
+                    copypath(loc, dest_path)
+                    self.cb(entry["path"], dest_path, self.num_pieces)
+                    break
 
     def _match_v2(self, filemap: dict, dest: str):
         """
